@@ -162,7 +162,7 @@ def report(prop, h, args, seed, jobs, results, known, pre_res, wall):
             "degraded_reasons": sorted({d for r in results for d in r["degraded"]})[:10],
             "path_outcomes": outcomes,
             "functions_encoded": sorted(funcs),
-            "bounds": meta.get("bounds", {}).get(args.tier, meta.get("bounds")),
+            "bounds": (meta.get("bounds") or {}).get(args.tier) if isinstance(meta.get("bounds"), dict) else meta.get("bounds"),
             "outside_claim": meta.get("outside", []),
             "stubs": meta.get("stubs", []),
             "oracle": meta.get("oracle"),
@@ -187,6 +187,8 @@ def report(prop, h, args, seed, jobs, results, known, pre_res, wall):
         f"{prop} [{args.tier}] jobs={len(results)} paths={ev['coverage']['states']} decisions={tot('decisions')} queries={tot('queries')} "
         f"solver={ev['coverage']['solver_time_s']}s crosschecked={tot('crosschecked')} degraded={degraded} wall={wall:.1f}s"
     )
+    slow = sorted(results, key=lambda r: -r["wall"])[:3]
+    print("  slowest jobs: " + ", ".join(f"{r['id']}={r['wall']}s/{r['paths']}p" for r in slow))
     if lines:
         for jid, v, path in lines:
             print(f"  counterexample job={jid} assertion={v['label']} values={json.dumps(v['values'])[:300]}")
